@@ -11,7 +11,7 @@
      - IPv6 literal with trailing dot reached through a bracketed userinfo: C33_refuted_ipv6_trailing_dot;
        guard = check_bracketed_host host (wf_br). *)
 From Coq Require Import List Bool NArith ZArith Strings.String.
-From MV Require Import Base.Bytes Model.Url Proofs.UrlParse Proofs.UrlRequest Proofs.UrlDest Proofs.UrlC33.
+From MV Require Import Base.Bytes Model.Url Proofs.UrlParse Proofs.UrlRequest Proofs.UrlDest Proofs.UrlNormal Proofs.UrlC33.
 Import ListNotations.
 
 (* url.parse reads back exactly the components url.unparse was given, for every well-formed
@@ -43,6 +43,31 @@ Theorem C33_url_fixpoint : forall ace uenc r,
   set_url ace uenc r (get_url r) = (r, true).
 Proof. exact url_fixpoint. Qed.
 Print Assumptions C33_url_fixpoint.
+
+(* For EVERY http(s) URL that url.parse accepts (any case, userinfo, explicit default port, leading zeros,
+   empty params/query/fragment, stripped control characters ...) the port it returns is in 1..65535 and
+   the path it returns is normal: parsing it again returns it unchanged. *)
+Theorem C33_parse_port_path_normal : forall ace uenc u s hb p pa,
+  parse ace uenc u = Some (s, hb, p, pa) -> http_scheme s ->
+  (1 <= p <= 65535)%Z /\ wf_path pa.
+Proof. exact parse_port_path_normal. Qed.
+Print Assumptions C33_parse_port_path_normal.
+
+(* For EVERY accepted http(s) URL: if the host that reads back satisfies host_wf (executable form host_wf_b,
+   evaluated by the correspondence on every accepted URL: there it fails exactly for the
+   trailing-dot IPv6 hosts of C33_refuted_ipv6_trailing_dot) and is stored undecoded (not IDN), then
+   assigning the URL that was read back succeeds and changes nothing. *)
+Theorem C33_accepted_url_reassignable : forall ace uenc r u r1,
+  set_url ace uenc r u = (r1, true) -> r_connect r = false ->
+  http_scheme (r_scheme r1) -> host_wf ace (r_host r1) ->
+  idna_decode ace (r_host r1) = Some (r_host r1) ->
+  set_url ace uenc r1 (get_url r1) = (r1, true).
+Proof. exact accepted_url_reassignable. Qed.
+Print Assumptions C33_accepted_url_reassignable.
+
+Theorem C33_host_wf_decidable : forall ace (uenc : str -> option bytes) h, host_wf_b ace h = true <-> host_wf ace h.
+Proof. exact host_wf_b_spec. Qed.
+Print Assumptions C33_host_wf_decidable.
 
 (* Every successful url/host/port edit leaves an existing Host header equal to the single value
    hostport(scheme, host, port) and a non-empty authority equal to its encoding, whatever came before. *)
